@@ -40,6 +40,7 @@ def units(tier, seed):
         for d in DELIMS:
             for ch in chunks(ids, 8 if tier == "quick" else 32):
                 us.append({"conv": ci, "delim": d, "ids": ch})
+    us += [{"kind": "shared", "delim": d} for d in DELIMS]
     return us
 
 
@@ -102,7 +103,53 @@ def check(ci, d, prefix, identifier, ctx=None):
     return fails
 
 
+def check_shared_process(d, ctx=None):
+    """Several resolver apps live in one process, and an app's converter may change after requests were served:
+    every answer must come from the app's own, current converter."""
+    from curies.resolver_service import get_fastapi_app, get_flask_app
+    from starlette.testclient import TestClient
+
+    fails = []
+    convs = [Converter([to_record(r) for r in recs], delimiter=d) for recs in CONVERTERS]
+    clients = [(get_flask_app(c).test_client(), TestClient(get_fastapi_app(c))) for c in convs]
+    prefixes = ["GO", "go", "doi", "a.b", "gomf", "zz"]
+    idents = ["1", "10.1/x", "a:b"]
+
+    def sweep(label):
+        for rnd in range(2):
+            for ci, (fl, fa) in enumerate(clients):
+                model = Model([mrec(r.prefix, r.uri_prefix, r.prefix_synonyms, r.uri_prefix_synonyms) for r in convs[ci].records], d)
+                for p in prefixes + ["late"]:
+                    for i in idents:
+                        path = "/" + p + d + i
+                        loc = model.expand(p + d + i)
+                        want = (302, loc) if loc is not None else (422, None)
+                        r1 = fl.get(path)
+                        r2 = fa.get(path, follow_redirects=False)
+                        got1, got2 = (r1.status_code, r1.headers.get("Location")), (r2.status_code, r2.headers.get("location"))
+                        if ctx is not None:
+                            ctx.count("transitions", 2)
+                            ctx.count("shared_process_requests", 2)
+                        for name, got in (("flask", got1), ("fastapi", got2)):
+                            if got != want:
+                                fails.append((f"{name}/answer-not-from-this-apps-current-converter", f"{label}, delimiter {d!r}, app {ci}: GET {path} -> {got}, expected {want}"))
+                if fails:
+                    return
+
+    sweep("three apps in one process")
+    if not fails:
+        convs[0].add_prefix("late", "http://late/")                                  # a new prefix after requests were served
+        convs[1].add_record(curies.Record(prefix="doi", uri_prefix="http://y/doi/"))  # formerly unknown there
+        convs[2].add_prefix("a.b", "http://ab3/", prefix_synonyms=["zz"], merge=True)  # a formerly unknown synonym
+        sweep("after the converters gained prefixes")
+    return fails
+
+
 def run_unit(unit, ctx):
+    if unit.get("kind") == "shared":
+        for sig, msg in check_shared_process(unit["delim"], ctx)[:3]:
+            ctx.violation("C17/" + sig, msg, {"kind": "shared", "delim": unit["delim"]})
+        return
     ci, d = unit["conv"], unit["delim"]
     model = Model(CONVERTERS[ci], d)
     prefixes = sorted(model.all_prefixes()) + UNKNOWN
@@ -118,6 +165,8 @@ def run_unit(unit, ctx):
 
 
 def replay(case):
+    if case.get("kind") == "shared":
+        return [("C17/" + s, m) for s, m in check_shared_process(case["delim"], None)]
     return [("C17/" + s, m) for s, m in check(case["conv"], case["delim"], case["prefix"], case["identifier"], None)]
 
 
@@ -126,7 +175,8 @@ def describe(tier):
         "level": "model_checking",
         "rule": "3 converters (synonyms, case-variant prefixes, prefixes with '.', '-', '_') x delimiters ':' and '/' x Flask and FastAPI test "
         f"clients x (every registered prefix and synonym + 2 unknown prefixes) x every identifier of 1..{3 if tier == 'quick' else 4} segments over "
-        f"{SEGMENTS} joined by '/'; expected status/Location from the reference model; distinct_nontrivial = redirected requests whose "
+        f"{SEGMENTS} joined by '/'; expected status/Location from the reference model; plus, per delimiter, the "
+        "three apps side by side in one process queried alternately, before and after their live converters gain prefixes; distinct_nontrivial = redirected requests whose "
         "identifier contains the delimiter",
         "bounds": {"segments": 3 if tier == "quick" else 4, "segment_alphabet": SEGMENTS},
         "exhaustive": True,
@@ -135,4 +185,4 @@ def describe(tier):
 
 
 def required_counters(tier):
-    return ["validated", "redirects", "redirects_identifier_with_slash", "redirects_identifier_with_delimiter", "unknown_prefix"]
+    return ["validated", "shared_process_requests", "redirects", "redirects_identifier_with_slash", "redirects_identifier_with_delimiter", "unknown_prefix"]
